@@ -352,6 +352,30 @@ def rule_atomic(ctx):
         if not bad:
             ctx.holds("C16.ATOMIC", f"{sv.short}[{kind}]", "no store to the element's value on any raising path", fi=sv)
     ctx.floor("C16.ATOMIC", "client element classes", n, 5)
+    # the same for the property's state: when applying a child raises, a state that has already been replaced must have
+    # been announced (StateUpdate before the children), otherwise the state changes without any event
+    vf = p.cls("indi.client.vectors.Vector").find_method("process_message")
+    bad = False
+    for kind in ("BLOB", "Number"):
+        def child():
+            attrs = {"size": Term("param", "size", pytype="str"), "format": Term("param", "format", pytype="str")} if kind == "BLOB" else {}
+            return part(p, f"One{kind}", "A", Term("param", "text", pytype="str"), **attrs)
+
+        paths = feed(p, lambda it: make_client(p, [make_callback(p, label="all")], it=it),
+                     lambda: [msg(p, f"Def{kind}Vector", "D", "V1", [part(p, f"Def{kind}", "A", None if kind == "BLOB" else "1")], state="Ok"),
+                              msg(p, f"Set{kind}Vector", "D", "V1", [child()], state="Busy")],
+                     {"call_may_raise": raiser, "assert_forks": True})
+        ctx.paths_enumerated += len(paths)
+        for pa in paths:
+            if pa.outcome != "raise":
+                continue
+            st = snapshot(pa.interp.client).get("D", {}).get("V1", {}).get("state")
+            announced = [e for e in (event_summary(x) for _, x, _ in delivered_events(pa)) if e[0] == "StateUpdate" and e[5] == repr(st)]
+            if st != "Ok" and not announced:
+                ctx.violated("C16.ATOMIC", f"{vf.short}[{kind}]", f"when applying a child of an update raises ({show(pa.value)[:40]}) the property's state has already become {st!r} but no StateUpdate was raised: the state changes silently and the next StateUpdate's old state was never announced", fi=vf, text=f"state-before-children:{kind}", witness=f"set{kind}Vector state=Busy with a child that fails to decode")
+                bad = True
+    if not bad:
+        ctx.holds("C16.ATOMIC", f"{vf.short}[state]", "on every raising path of an update a replaced state has been announced before", fi=vf)
 
 
 def rule_chain(ctx):
